@@ -75,7 +75,8 @@ pub fn parse<'a>(scanner: &mut Scanner<'a>) -> ParseResult<SmallMap<&'a str, Vec
         while let Some(p) = read_path(scanner)? {
             deps.push(p);
         }
-        result.insert(target, deps);
+        // A depfile may name the same target more than once; keep every entry.
+        result.push(target, deps);
     }
     scanner.expect('\0')?;
 
